@@ -603,6 +603,26 @@ class Idx:
         """an index atom that is a local defined as <index of a known kind> + <value of no index kind>: the sum is not
         confined to the extent of that kind (an unprovable bound is a finding, not an unknown idiom)"""
         sc = self.scopes[f.qual]
+
+        def kinded(a):
+            try:
+                k = self._atom_kind(a, f, at)
+            except Unknown:
+                k = None
+            return k if (k is not None and k != TOP and self._atom_ext(a, f) is None) else None
+        # written in place (or inlined by the front end):  (cell + T[d]) * stride  ->  two monomials with the same cofactor
+        for m, c in p.t.items():
+            for a, e in m:
+                if e != 1 or kinded(a) is not None or self._atom_ext(a, f) is not None or "[" not in a:
+                    continue
+                rest = tuple(x for x in m if x[0] != a)
+                for m2, c2 in p.t.items():
+                    if m2 is m or c2 != c:
+                        continue
+                    for b, e2 in m2:
+                        if e2 == 1 and tuple(x for x in m2 if x[0] != b) == rest and kinded(b) is not None:
+                            return "the index adds %s to %s, an index of kind %s: nothing confines the sum to that kind's extent" \
+                                   % (a, b, kstr(kinded(b)))
         for m in p.t:
             for a, e in m:
                 d = sc.defs.get(a)
